@@ -118,7 +118,17 @@ impl Engine for ToEngine {
         let rt = tokio::runtime::Builder::new_current_thread().enable_time().start_paused(true).build().unwrap();
         let obs = Arc::new(Mutex::new(InnerObs::default()));
         let outer_done = Arc::new(Mutex::new(false));
-        let (res, issued, resolved) = rt.block_on(async {
+        // very large durations ("no limit in practice"): u64::MAX stands for Duration::MAX, u64::MAX - 1
+        // for half the u64 range in seconds; a panic on the way is the library's
+        let dur_of = |ms: u64| -> Duration {
+            match ms {
+                u64::MAX => Duration::MAX,
+                x if x == u64::MAX - 1 => Duration::from_secs(u64::MAX / 2),
+                x => Duration::from_millis(x),
+            }
+        };
+        let _ = crate::panichook::take_all();
+        let run = std::panic::catch_unwind(std::panic::AssertUnwindSafe(|| rt.block_on(async {
             let t0 = Instant::now();
             let inner = InnerSvc {
                 obs: obs.clone(),
@@ -128,7 +138,7 @@ impl Engine for ToEngine {
                 outer_done: outer_done.clone(),
                 ready_sleep: (c.ready_delay > 0).then(|| Box::pin(tokio::time::sleep(Duration::from_millis(c.ready_delay)))),
             };
-            let mut svc = TimeoutLayer::new(timeout_err as fn() -> MyErr, Duration::from_millis(c.dur)).layer(inner);
+            let mut svc = TimeoutLayer::new(timeout_err as fn() -> MyErr, dur_of(c.dur)).layer(inner);
             std::future::poll_fn(|cx| svc.poll_ready(cx)).await.unwrap();
             let issued = t0.elapsed().as_millis() as u64;
             let fut = svc.call(1u8);
@@ -144,10 +154,25 @@ impl Engine for ToEngine {
                 tokio::task::yield_now().await;
             }
             (guard.ok(), issued, resolved)
-        });
+        })));
         drop(rt);
+        let (res, issued, resolved) = match run {
+            Ok(x) => x,
+            Err(_) => {
+                let loc = crate::panichook::last_location();
+                if crate::panichook::in_library(&loc) {
+                    rep.violate("C19/panic-in-timeout-layer", format!("{c:?}: panic at {loc}: {}", crate::panichook::last_message()));
+                } else {
+                    rep.internal_error = Some(format!("harness panic at {loc}: {}", crate::panichook::last_message()));
+                }
+                return rep;
+            }
+        };
         let o = obs.lock().unwrap();
-        let deadline = issued + c.dur;
+        let deadline = issued.saturating_add(c.dur);
+        if c.dur >= u64::MAX - 1 {
+            rep.class("huge-duration");
+        }
         let inner_done = c.inner_at.map(|a| issued + a);
         let first_poll = issued + c.first_poll_delay;
         let desc = format!("{c:?}: issued at {issued}, deadline {deadline}, inner completes at {inner_done:?}, first poll at {first_poll}; resolved {res:?} at {resolved}; inner {o:?}");
@@ -233,11 +258,18 @@ pub fn exhaustive() -> Vec<ToCase> {
 pub fn strategy() -> impl proptest::strategy::Strategy<Value = ToCase> {
     use proptest::prelude::*;
     (
-        prop_oneof![1 => Just(0u64), 4 => 1u64..200],
+        prop_oneof![4 => Just(0u64), 16 => 1u64..200, 1 => Just(u64::MAX), 1 => Just(u64::MAX - 1)],
         prop_oneof![1 => Just(None), 4 => (0u64..300).prop_map(Some)],
         any::<bool>(),
         prop_oneof![2 => Just(0u64), 1 => 1u64..250],
         prop_oneof![3 => Just(0u64), 1 => 1u64..30],
     )
-        .prop_map(|(dur, inner_at, inner_ok, first_poll_delay, ready_delay)| ToCase { dur, inner_at, inner_ok, first_poll_delay, ready_delay })
+        .prop_map(|(dur, inner_at, inner_ok, first_poll_delay, ready_delay)| ToCase {
+            dur,
+            // with a practically unlimited duration only a completing inner future terminates the case
+            inner_at: if dur >= u64::MAX - 1 { Some(inner_at.unwrap_or(7)) } else { inner_at },
+            inner_ok,
+            first_poll_delay,
+            ready_delay,
+        })
 }
